@@ -74,14 +74,14 @@ theorem gp_mem {rt : Nat} (h : groupOf rt = 0) : rt ∈ [2, 3, 4, 5, 6] := by
     the variable's own register): still the variable's, in destination form if the variable needs no extension, otherwise still in
     source form -/
 theorem swapTok_var_facts (p : Params) (hy : Hyp p) (c0 : Ctx) (M : State) (j : Nat) (hj : j < p.n) (u : Var) (t : Tok)
-    (hu : VarOK p c0 M j u) (htv : t.var = j) (hF : Form p j u t)
+    (hu : VarOK p c0 M j u) (htv : t.var = j) (hF : Form p j u t) (hsr : (p.src j).isReg = true)
     (hsw : hasSwap p.cfg.arch (groupOf u.out.regType) = true) (rt : Nat) (hrt : rt = 5 ∨ rt = 6)
     (hwide : regBytes u.cur.regType ≤ regBytes rt) :
     (swapTok p.vis rt t).var = j ∧ (needsExt u = false → (swapTok p.vis rt t).dv = true) ∧
     (needsExt u = true → (swapTok p.vis rt t).sv = true ∧ ((initTok p.vis j).dv = true → (swapTok p.vis rt t).dv = true) ∧
         u.cur.typeId = (p.src j).typeId ∧ u.cur.regType = (p.src j).regType) := by
   have hvis := hy.visOk j hj
-  obtain ⟨hs1, hs2, hd1, hd2, hfs, hfd⟩ := hy.swapInt j hj (by rw [← hu.out]; exact hsw)
+  obtain ⟨hs1, hs2, hd1, hd2, hfs, hfd⟩ := hy.swapInt j hj hsr (by rw [← hu.out]; exact hsw)
   have hst := int_mem hs1 hs2
   have hdt := int_mem hd1 hd2
   have hc : (if regBytes rt ≤ 4 then 4 else 8) = regBytes rt ∧ ((if regBytes rt ≤ 4 then 4 else 8) : Nat) ∈ [4, 8] := by
@@ -177,8 +177,8 @@ theorem swap_ok (p : Params) (hy : Hyp p) (e : Emit) (M : State) (hw : WF p e M)
   have hrt56 : rt = 5 ∨ rt = 6 := by omega
   have hswv : hasSwap p.cfg.arch (groupOf v.out.regType) = true := by rw [hgdef, ← hgv]; exact hswp
   have hswa : hasSwap p.cfg.arch (groupOf a.out.regType) = true := by rw [← ha.grp, hag, ← hgv]; exact hswp
-  obtain ⟨fv1, fv2, fv3⟩ := swapTok_var_facts p hy e.ctx M i hi v tv hv htvv (hformv hnd) hswv rt hrt56 hwide.1
-  obtain ⟨fa1, fa2, fa3⟩ := swapTok_var_facts p hy e.ctx M altId haltLt a ta ha htav (hforma hand) hswa rt hrt56 hwide.2
+  obtain ⟨fv1, fv2, fv3⟩ := swapTok_var_facts p hy e.ctx M i hi v tv hv htvv (hformv hnd) (hv.srcReg hnd) hswv rt hrt56 hwide.1
+  obtain ⟨fa1, fa2, fa3⟩ := swapTok_var_facts p hy e.ctx M altId haltLt a ta ha htav (hforma hand) (ha.srcReg hand) hswa rt hrt56 hwide.2
   have hinsdef : ins = ⟨.xchg, false, [.reg rt v.out.regId, .reg rt v.cur.regId]⟩ := by
     unfold regSwap at hins
     simp [hg0.2, hrt.2.2] at hins
@@ -265,7 +265,7 @@ theorem swap_ok (p : Params) (hy : Hyp p) (e : Emit) (M : State) (hw : WF p e M)
     by_cases hji : j = i
     · subst hji
       rw [hvar'i, hv'def]
-      refine ⟨hv.out, hv.curReg, hv.notStk, hv.outReg, hv.outInit, hv.grp, hv.grpLt, hv.outLt, hv.outLt, ?_, ?_⟩
+      refine ⟨hv.out, hv.curReg, hv.notStk, hv.outReg, hv.outInit, hv.grp, hv.grpLt, hv.outLt, hv.outLt, ?_, ?_, fun _ => hv.srcReg hnd⟩
       · show physAt c' (groupOf v.cur.regType) v.out.regId = some j
         rw [hphys', hgv]; simp
       · refine ⟨tv', ?_, fv1, ?_, ?_⟩
@@ -283,7 +283,8 @@ theorem swap_ok (p : Params) (hy : Hyp p) (e : Emit) (M : State) (hw : WF p e M)
     · by_cases hja : j = altId
       · subst hja
         rw [hvar'a, ha'def]
-        refine ⟨ha.out, ha.curReg, ha.notStk, ha.outReg, ha.outInit, ha.grp, ha.grpLt, hv.curLt, ha.outLt, ?_, ?_⟩
+        refine ⟨ha.out, ha.curReg, ha.notStk, ha.outReg, ha.outInit, ha.grp, ha.grpLt, hv.curLt, ha.outLt, ?_, ?_,
+          fun h => ha.srcReg (by have h' : (a.done || (a.outInit && !needsExt a)) = false := h; exact (Bool.or_eq_false_iff.1 h').1)⟩
         · show physAt c' (groupOf a.cur.regType) v.cur.regId = some j
           rw [hphys', hag]; simp [hne]
         · have hdone' : (a.done || (a.outInit && !needsExt a)) = !needsExt a := by simp [hand, ha.outInit]
@@ -301,7 +302,7 @@ theorem swap_ok (p : Params) (hy : Hyp p) (e : Emit) (M : State) (hw : WF p e M)
       · rw [hvar'j j hji hja] at hrj'
         have hvj := hw.var j hj hrj'
         rw [hvar'j j hji hja]
-        refine ⟨hvj.out, hvj.curReg, hvj.notStk, hvj.outReg, hvj.outInit, hvj.grp, hvj.grpLt, hvj.curLt, hvj.outLt, ?_, ?_⟩
+        refine ⟨hvj.out, hvj.curReg, hvj.notStk, hvj.outReg, hvj.outInit, hvj.grp, hvj.grpLt, hvj.curLt, hvj.outLt, ?_, ?_, hvj.srcReg⟩
         · rw [hphys']
           by_cases hgj : groupOf (e.ctx.var j).cur.regType = g
           · obtain ⟨h1, h2⟩ := hother j hj hji hja hrj' hgj
